@@ -95,3 +95,35 @@ Example views_example : forall m0 o1 o2,
   map (fun e => snd (fst e)) (of_requester _ 7 (responses mstate _ m_streams m0
         (steps_of m0 [ERead 7; EWrite o1; ERead 7; ERead 3; EWrite o2; ERead 7]))) = [0; 1; 2]%nat.
 Proof. reflexivity. Qed.
+
+(* ---- instantiated with the media playlist generator: what one client sees on successive requests ---- *)
+Lemma Forall2_nth_both {A} (Q : A -> A -> Prop) l l' : Forall2 Q l l' ->
+  forall i x y, nth_error l i = Some x -> nth_error l' i = Some y -> Q x y.
+Proof.
+  induction 1 as [|a b l l' Hab _ IH]; intros [|i] x y Hx Hy; cbn [nth_error] in *; try discriminate.
+  - injection Hx as <-. injection Hy as <-. exact Hab.
+  - eapply IH; eauto.
+Qed.
+
+Theorem muxer_playlists_monotone si m0 evs r l1 e1 e2 l2 p1 p2 :
+  of_requester _ r (responses mstate _ (fun m => gen_media_playlist m si) m0 (steps_of m0 evs)) = l1 ++ e1 :: e2 :: l2 ->
+  snd e1 = Some p1 -> snd e2 = Some p2 ->
+  (pl_msn p1 <= pl_msn p2)%Z
+  /\ (forall h1 h2, pl_hint p1 = Some h1 -> pl_hint p2 = Some h2 -> (h1 <= h2)%Z).
+Proof.
+  intros H E1 E2.
+  destruct (muxer_views_in_order _ (fun m => gen_media_playlist m si) m0 evs r l1 e1 e2 l2 H) as (ops1 & ops2 & G1 & G2).
+  rewrite E1 in G1. rewrite E2 in G2. rewrite mux_run_app in G2.
+  set (m1 := mux_run m0 ops1) in *. set (m2 := mux_run m1 ops2) in *.
+  pose proof (history_monotone m1 ops2) as HR. fold m2 in HR.
+  unfold gen_media_playlist in G1, G2.
+  destruct (nth_error (m_streams m1) si) as [s1|] eqn:N1; [|discriminate].
+  destruct (nth_error (m_streams m2) si) as [s2|] eqn:N2; [|discriminate].
+  pose proof (Forall2_nth_both R _ _ HR si s1 s2 N1 N2) as [_ (dr & _ & Hd) _ Hnp _].
+  destruct (negb (hasContent (c_variant (m_cfg m1)) s1)); [discriminate|].
+  destruct (negb (hasContent (c_variant (m_cfg m2)) s2)); [discriminate|].
+  injection G1 as ->. injection G2 as ->. cbn [pl_msn pl_hint]. split; [lia|].
+  intros h1 h2 A B.
+  destruct (c_variant (m_cfg m1)); try discriminate. destruct (c_variant (m_cfg m2)); try discriminate.
+  injection A as <-. injection B as <-. exact Hnp.
+Qed.
